@@ -50,8 +50,10 @@ pub fn exec(w: &mut World, op: &Value) -> bool {
         "alloc_temp" => {
             let (o, k) = (s(op, "o").to_string(), Kind::parse(s(op, "k")));
             w.mutate("alloc_temp", move |st, mc, root| {
-                st.survey(mc, root, None);
-                st.alloc(mc, k, &o);
+                let mut held = st.survey(mc, root, None);
+                let c = st.alloc(mc, k, &o);
+                held.insert(st.serial_of(&o).unwrap(), c);
+                st.recheck(&held);
                 if panics {
                     st.panic_now(false);
                 }
@@ -69,6 +71,9 @@ pub fn exec(w: &mut World, op: &Value) -> bool {
                 let c = st.alloc(mc, k, &o);
                 let cs = st.serial_of(&o).unwrap();
                 *okr = st.store(mc, ps, pp, cs, c, &path);
+                let mut held = found;
+                held.insert(cs, c);
+                st.recheck(&held);
             }) && ok
         }
         "link" | "unlink" | "wlink" | "wunlink" | "barrier" => {
@@ -100,6 +105,7 @@ pub fn exec(w: &mut World, op: &Value) -> bool {
                         }
                     }
                 };
+                st.recheck(&found);
             }) && ok
         }
         "new_set" => {
@@ -391,8 +397,17 @@ pub fn replay(beh: &Value, beh_id: usize, epilogue: &str) -> ReplayResult {
         ws[1].set_pacing_q(16, 1, 0, 0, 0, 0, 0);
     }
     let ops = beh.get("ops").and_then(|v| v.as_array()).cloned().unwrap_or_default();
+    let big_debt = epilogue == "drop" && beh.get("pacing").is_none();
     for (k, op) in ops.iter().enumerate() {
         let a = op.get("a").and_then(|v| v.as_u64()).unwrap_or(0) as usize;
+        // C03: callbacks must not reclaim anything whatever the outstanding debt.  In the "drop" variant
+        // every mutator callback is entered with a debt far above anything the heap could justify.
+        let opname = s(op, "op");
+        if big_debt && !matches!(opname, "call" | "start_sweeping" | "finalize" | "drop_arena" | "clone_handle" | "drop_handle")
+            && ws[a].alive() && ws[a].metrics.total_gc_count() > 0
+        {
+            ws[a].adjust_debt(16_000_000);
+        }
         if !exec(&mut ws[a], op) {
             skipped += 1;
         }
